@@ -120,20 +120,38 @@ class CfgModel:
     def __getitem__(self, s):
         return self.c[s]
 
-    def get(self, s, k, **kw):
+    _UNSET = object()
+
+    def _absent(self, s, k, fallback):
+        """configparser's contract for a missing option."""
+        if self.has_option(s, k):
+            return False
+        if fallback is CfgModel._UNSET:
+            raise KeyError(k)
+        return True
+
+    def get(self, s, k, *, raw=False, vars=None, fallback=_UNSET):
+        if self._absent(s, k, fallback):
+            return fallback
         return self.c[s][k]
 
-    def getint(self, s, k):
+    def getint(self, s, k, *, raw=False, vars=None, fallback=_UNSET):
+        if self._absent(s, k, fallback):
+            return fallback
         v = Z.var(f"int[{s}.{k}]")
         self.rec[(s, k)] = v
         return v
 
-    def getfloat(self, s, k):
+    def getfloat(self, s, k, *, raw=False, vars=None, fallback=_UNSET):
+        if self._absent(s, k, fallback):
+            return fallback
         v = Q.var(f"float[{s}.{k}]")
         self.rec[(s, k)] = v
         return v
 
-    def getboolean(self, s, k):
+    def getboolean(self, s, k, *, raw=False, vars=None, fallback=_UNSET):
+        if self._absent(s, k, fallback):
+            return fallback
         v = bool(B(z3.Bool(f"bool[{s}.{k}]")))      # forks
         self.rec[(s, k)] = v
         return v
@@ -1073,6 +1091,17 @@ def replay(cex):
             if sec != 'files' and got is KeyError:
                 return True, (f"real parser accepts [{sec}] {key} but does "
                               f"not route it")
+            if key in INT or key in FLOAT:
+                # the legitimate value 0 must arrive as well
+                try:
+                    out0, _ = parse(f"[{sec}]\n{key}=0\n")
+                    g0 = _where(out0, sec, key)
+                except Exception as e:      # noqa
+                    return True, f"[{sec}] {key}=0 rejected: {e!r}"[:200]
+                if g0 is KeyError or g0 != 0:
+                    return True, (f"real parser drops / changes [{sec}] "
+                                  f"{key}=0 (routed: "
+                                  f"{'nothing' if g0 is KeyError else g0})")
             if kind == 'downstream':
                 msg = accept_routed(sec, key, emg3d)
                 return bool(msg), (f"real cli.run + API for the option "
